@@ -7,15 +7,17 @@ use crate::rec::Rec;
 use crate::rng::Rng;
 use crate::runner::{Runner, Tier};
 use crate::spec;
+use std::collections::VecDeque;
 
 pub const INDS: &[&str] = &[
     "SimpleMovingAverage", "WeightedMovingAverage", "StandardDeviation", "BollingerBands", "MeanAbsoluteDeviation",
     "CommodityChannelIndex", "MoneyFlowIndex", "Minimum", "Maximum",
 ];
-pub const REGIMES: &[&str] = &["walk", "alt", "spike", "plateau", "saw", "ticks", "quiet"];
+/// (new regimes are appended: replay files store the index)
+pub const REGIMES: &[&str] = &["walk", "alt", "spike", "plateau", "saw", "ticks", "quiet", "iid"];
 
 /// one value of the band [m, 1000·m] under a regime
-fn nextval(rng: &mut Rng, regime: &str, i: usize, m: f64, prev: f64) -> f64 {
+pub fn nextval(rng: &mut Rng, regime: &str, i: usize, m: f64, prev: f64) -> f64 {
     let (lo, hi) = (m, 1000.0 * m);
     let v = match regime {
         "walk" => prev * (1.0 + (rng.unit() - 0.5) * 0.02),
@@ -37,32 +39,246 @@ fn nextval(rng: &mut Rng, regime: &str, i: usize, m: f64, prev: f64) -> f64 {
                 lo * 730.0 * (1.0 + (rng.unit() - 0.5) * 2e-8)
             }
         }
+        // independent uniform draws over the whole band: any two elements of a window differ at the scale of the
+        // largest magnitude, so a mis-placed, mis-weighted or double-counted element moves the statistic by far more
+        // than τ(t)·M even at t = 2^24 (τ = 7e-5)
+        "iid" => lo + (hi - lo) * rng.unit(),
         _ => lo + (hi - lo) * ((i % 97) as f64 / 97.0),
     };
     v.max(lo).min(hi)
 }
 
-/// The stream is regenerated from (seed, regime, m, len) = extra[0..4]; ops stay empty (2·10^6
-/// inputs are not stored in the replay file).
+/// "Round" update counts at which a hidden update counter (periodic re-synchronisation, cache refresh, rebuild
+/// "every N calls") would plausibly fire: every power of two 2^10..2^24 and the round decimals 10^3..10^7 and 5·10^k.
+pub fn round_counts(limit: usize) -> Vec<usize> {
+    let mut v: Vec<usize> = (10..=24).map(|k| 1usize << k).collect();
+    let mut p = 1000usize;
+    while p <= 10_000_000 {
+        v.push(p);
+        if 5 * p < 10_000_000 {
+            v.push(5 * p);
+        }
+        p *= 10;
+    }
+    v.retain(|x| *x <= limit);
+    v.sort();
+    v.dedup();
+    v
+}
+
+/// a period in lo..=hi that divides no round count (coprime to 10, >= 3): the ring cursor is then never at slot 0
+/// when a round count is reached, so a rebuild that confuses slot order with age order cannot hide
+pub fn odd_period(rng: &mut Rng, lo: usize, hi: usize) -> usize {
+    for _ in 0..64 {
+        let n = rng.range(lo.max(3), hi.max(3));
+        if n % 2 != 0 && n % 5 != 0 {
+            return n;
+        }
+    }
+    3
+}
+
+/// which steps of a long run are compared FROM SCRATCH
+#[derive(Clone, Copy, PartialEq, Debug)]
+pub enum Due {
+    No,
+    /// inside [N-1, N+span] of a round count N
+    Dense,
+    /// one of the first `span` steps, of the `samples` evenly spaced steps, or the last step
+    Sampled,
+}
+pub struct Schedule {
+    rounds: Vec<usize>,
+    k: usize,
+    span: usize,
+    every: usize,
+    len: usize,
+}
+impl Schedule {
+    pub fn new(len: usize, span: usize, samples: usize) -> Schedule {
+        Schedule { rounds: round_counts(usize::MAX), k: 0, span, every: (len / samples.max(1)).max(1), len }
+    }
+    /// `t` = number of inputs since construction/reset (must be called with increasing t)
+    pub fn due(&mut self, t: usize) -> Due {
+        while self.k < self.rounds.len() && t > self.rounds[self.k] + self.span {
+            self.k += 1;
+        }
+        if t % self.every == 0 || t == self.len || t <= self.span {
+            Due::Sampled
+        } else if self.k < self.rounds.len() && t + 1 >= self.rounds[self.k] {
+            Due::Dense
+        } else {
+            Due::No
+        }
+    }
+}
+
+/// The harness's own copy of the window (last n inputs) with EXACT-to-1e-25 running evaluations in double-double:
+/// Σx, Σx², Σ i·x_i are updated by subtract-evicted/add-new in 106-bit arithmetic (error per update 2^-104 of the
+/// operands; after 2^24 updates still < 1e-24·n·M, i.e. thirteen orders below τ·M), sliding minimum / maximum by
+/// monotonic deques (exact).  They allow a comparison at EVERY step of a multi-million-step run; at the scheduled
+/// steps they are themselves checked against the from-scratch evaluation of the window (`selfcheck`).
+pub struct WinRef {
+    pub n: usize,
+    pub ring: VecDeque<f64>,
+    s1: DD,
+    s2: DD,
+    sw: DD,
+    pushed: usize,
+    maxq: VecDeque<(usize, f64)>,
+    minq: VecDeque<(usize, f64)>,
+    /// which running evaluations are maintained: (Σ i·x_i, Σx², extremes); Σx always
+    keep: (bool, bool, bool),
+}
+impl WinRef {
+    pub fn new(n: usize) -> WinRef {
+        WinRef { n, ring: VecDeque::with_capacity(n + 2), s1: DD::ZERO, s2: DD::ZERO, sw: DD::ZERO, pushed: 0, maxq: VecDeque::new(), minq: VecDeque::new(), keep: (true, true, true) }
+    }
+    /// only the running evaluations that the indicator's comparison needs
+    pub fn new_for(ind: &str, n: usize) -> WinRef {
+        let mut w = WinRef::new(n);
+        w.keep = (ind == "WeightedMovingAverage", matches!(ind, "StandardDeviation" | "BollingerBands"), matches!(ind, "Minimum" | "Maximum"));
+        w
+    }
+    pub fn push(&mut self, x: f64) {
+        let k = self.ring.len();
+        let xd = dd(x);
+        if k == self.n {
+            let old = dd(self.ring.pop_front().unwrap());
+            // every weight drops by one (Σ i·x_i − Σ x_i), then the newest enters with weight n
+            if self.keep.0 {
+                self.sw = self.sw.sub(self.s1).add(xd.mul(DD::fromu(self.n)));
+            }
+            self.s1 = self.s1.sub(old).add(xd);
+            if self.keep.1 {
+                self.s2 = self.s2.sub(old.mul(old)).add(xd.mul(xd));
+            }
+        } else {
+            if self.keep.0 {
+                self.sw = self.sw.add(xd.mul(DD::fromu(k + 1)));
+            }
+            self.s1 = self.s1.add(xd);
+            if self.keep.1 {
+                self.s2 = self.s2.add(xd.mul(xd));
+            }
+        }
+        self.ring.push_back(x);
+        let t = self.pushed;
+        self.pushed += 1;
+        if !self.keep.2 {
+            return;
+        }
+        while let Some(&(_, v)) = self.maxq.back() {
+            if v <= x { self.maxq.pop_back(); } else { break; }
+        }
+        self.maxq.push_back((t, x));
+        while let Some(&(_, v)) = self.minq.back() {
+            if v >= x { self.minq.pop_back(); } else { break; }
+        }
+        self.minq.push_back((t, x));
+        if self.maxq.front().unwrap().0 + self.n <= t {
+            self.maxq.pop_front();
+        }
+        if self.minq.front().unwrap().0 + self.n <= t {
+            self.minq.pop_front();
+        }
+    }
+    pub fn window(&self) -> Vec<f64> {
+        self.ring.iter().copied().collect()
+    }
+    pub fn mean(&self) -> DD {
+        self.s1.div(DD::fromu(self.ring.len()))
+    }
+    pub fn wma(&self) -> DD {
+        let k = self.ring.len();
+        self.sw.div(DD::fromu(k * (k + 1) / 2))
+    }
+    pub fn var(&self) -> DD {
+        let k = DD::fromu(self.ring.len());
+        let m = self.s1.div(k);
+        self.s2.div(k).sub(m.mul(m))
+    }
+    pub fn max(&self) -> f64 {
+        self.maxq.front().unwrap().1
+    }
+    pub fn min(&self) -> f64 {
+        self.minq.front().unwrap().1
+    }
+    /// the running evaluations against the from-scratch evaluation of `w` (= self.window()); `big` = largest
+    /// magnitude pushed.  A disagreement is a defect of the HARNESS, reported as such.
+    pub fn selfcheck(&self, w: &[f64], big: f64) -> Option<String> {
+        let e1 = self.mean().sub(spec::mean(w)).abs().to_f64();
+        let e2 = if self.keep.0 { self.wma().sub(spec::wma(w)).abs().to_f64() } else { 0.0 };
+        let e3 = if self.keep.1 { self.var().sub(spec::var(w)).abs().to_f64() } else { 0.0 };
+        let ext = !self.keep.2 || (self.max() == spec::fmax(w) && self.min() == spec::fmin(w));
+        if !(e1 <= 1e-18 * big && e2 <= 1e-18 * big && e3 <= 1e-18 * big * big) || !ext {
+            return Some(format!("running double-double reference disagrees with the from-scratch evaluation: mean {:e} wma {:e} var {:e} (M={:e}) extremes agree: {}", e1, e2, e3, big, ext));
+        }
+        None
+    }
+}
+
+/// Known finding (WMA's weighted running sum integrates the rounding error of its flat running sum): on long
+/// streams the error crosses tau(t)·M smoothly.  The FIRST exceedance is reported as `…drift-marginal` when it is
+/// <= 2·tau·M (with a comparison at every step a smooth drift always is; a larger first exceedance is a plain
+/// failure).  The run then continues, so that a different defect later in the run is not masked; since the drift
+/// itself keeps growing (like t² in the worst case against tau ~ t^1.5), the criterion from there on is a JUMP: the
+/// signed error moving by more than tau(t)·M/4 in ONE step.  Rounding cannot do that: one update changes the error
+/// by at most |error of the flat sum|/(n(n+1)/2) + O(u·M) <= 2·t·u·M/(n+1), which is < 0.01·tau(t)·M for t >= 1000.
+pub struct WmaDrift {
+    pub prev: f64,
+    pub worst: f64,
+}
+impl WmaDrift {
+    pub const JUMP: f64 = 0.25;
+    pub fn annotate(&self, f: Failure) -> Failure {
+        Failure { key: f.key, msg: format!("{} [first exceedance; the run was continued: largest |diff|/(τ(t)·M) until its end = {:.3}, no jump of the error]", f.msg, self.worst.max(1.0)) }
+    }
+}
+
+/// does the running reference of `WinRef` cover this indicator (comparison at every step)?
+pub fn every_step(ind: &str) -> bool {
+    matches!(ind, "SimpleMovingAverage" | "WeightedMovingAverage" | "StandardDeviation" | "BollingerBands" | "Minimum" | "Maximum")
+}
+
+/// The stream is regenerated from (seed, regime, m, len, prior) = extra[0..5]; ops stay empty (2·10^6 inputs are not
+/// stored in the replay file).  prior > 0: a prior session of that many inputs (same regime and band) is fed first
+/// and closed by reset(); the long reset-free stream, t, M and the window start after the reset.
 pub fn check(case: &Case, _rec: &mut Rec) -> Option<Failure> {
     let seed = case.extra[0] as u64;
     let regime = REGIMES[case.extra[1] as usize % REGIMES.len()];
     let m = case.extra[2];
     let len = case.extra[3] as usize;
+    let prior = case.extra.get(4).copied().unwrap_or(0.0) as usize;
     let n = case.ps[0];
     let mut rng = Rng::new(seed);
     let mut inst = Ind::create(&case.ind, &case.ps, &case.ms).unwrap().unwrap();
     let bars = !inst.has_next();
-    let mut ring: std::collections::VecDeque<f64> = std::collections::VecDeque::with_capacity(n + 2);
-    let mut bring: std::collections::VecDeque<B> = std::collections::VecDeque::with_capacity(n + 2);
+    let mkbar = |rng: &mut Rng, x: f64| B { o: x, h: x * (1.0 + rng.unit() * 0.01), l: x * (1.0 - rng.unit() * 0.01), c: x * (1.0 + (rng.unit() - 0.5) * 0.01), v: 100.0 * (0.5 + rng.unit()) };
     let mut prev = m * 30.0;
+    if prior > 0 {
+        for i in 0..prior {
+            let x = nextval(&mut rng, regime, i, m, prev);
+            prev = x;
+            let b = mkbar(&mut rng, x);
+            if bars { inst.next_bar(&b) } else { inst.next(x) };
+        }
+        inst.reset();
+    }
+    let mut win = WinRef::new_for(&case.ind, n);
+    let mut bring: VecDeque<B> = VecDeque::with_capacity(n + 2);
+    let mut tring: VecDeque<DD> = VecDeque::with_capacity(n + 2); // typical prices of `bring`, in double-double
     let mut big = 0.0f64;
-    let sample_every = (len / 400).max(1);
+    let mut sched = Schedule::new(len, 2 * n + 2, 400);
     let mut maxflow = 0.0f64;
+    let fast = every_step(&case.ind);
+    // the known marginal WMA drift does not end the run: a later failure beyond it (a different defect) takes precedence
+    let mut marginal: Option<Failure> = None;
+    let mut drift = WmaDrift { prev: 0.0, worst: 0.0 };
     for i in 0..len {
         let x = nextval(&mut rng, regime, i, m, prev);
         prev = x;
-        let mut b = B { o: x, h: x * (1.0 + rng.unit() * 0.01), l: x * (1.0 - rng.unit() * 0.01), c: x * (1.0 + (rng.unit() - 0.5) * 0.01), v: 100.0 * (0.5 + rng.unit()) };
+        let mut b = mkbar(&mut rng, x);
         // plateaus repeat the previous bar's prices exactly (equal consecutive typical prices), with fresh volume
         if regime == "plateau" && i % 257 != 0 {
             if let Some(pb) = bring.back() {
@@ -73,52 +289,80 @@ pub fn check(case: &Case, _rec: &mut Rec) -> Option<Failure> {
         if bars {
             big = big.max(b.h);
             bring.push_back(b);
+            tring.push_back(spec::typical(&b));
             if bring.len() > n + 1 {
                 bring.pop_front();
+                tring.pop_front();
             }
-            maxflow = maxflow.max(spec::typical(&b).to_f64() * b.v);
+            maxflow = maxflow.max(tring.back().unwrap().to_f64() * b.v);
         } else {
             big = big.max(x.abs());
-            ring.push_back(x);
-            if ring.len() > n {
-                ring.pop_front();
-            }
+            win.push(x);
         }
         let t = i + 1;
         // the variance never becomes negative or NaN (checked at EVERY step)
         if case.ind == "StandardDeviation" && !(out[0] >= 0.0) {
             return fail(case, "variance-negative-or-nan", format!("t={}: StandardDeviation = {}", t, out[0]));
         }
-        // Minimum / Maximum are compared at EVERY step (a stale extreme only survives for < n steps)
-        let every = matches!(case.ind.as_str(), "Minimum" | "Maximum");
-        if !every && t % sample_every != 0 && t != len {
+        // from scratch: at the sampled steps for everyone, inside the dense intervals for the indicators that have no
+        // running reference; the others are compared with the running reference at every other step
+        let due = match sched.due(t) {
+            Due::Sampled => true,
+            Due::Dense => !fast,
+            Due::No => false,
+        };
+        if !due && !fast {
             continue;
         }
-        let w: Vec<f64> = ring.iter().copied().collect();
         let tol = tau(t) * big;
+        let how = if due { "from-scratch evaluation of the current window" } else { "exact running (double-double) evaluation of the current window" };
         let chk = |what: &str, got: f64, want: DD, tol: f64| -> Option<Failure> {
             let d = absdiff(got, want);
             if !(d <= tol) {
                 let sym = if what == "WMA" && d <= 2.0 * tol { "drift-marginal" } else { "drift" };
-                fail(case, sym, format!("t={} ({} regime, m={:e}, n={}): {} = {:e}, from-scratch evaluation of the current window = {:e}, |diff| {:e} > τ(t)·M = {:e}", t, regime, m, n, what, got, want.to_f64(), d, tol))
+                fail(case, sym, format!("t={} ({} regime, m={:e}, n={}{}): {} = {:e}, {} = {:e}, |diff| {:e} > τ(t)·M = {:e}", t, regime, m, n, if prior > 0 { format!(", after a prior session of {} inputs and reset()", prior) } else { String::new() }, what, got, how, want.to_f64(), d, tol))
             } else {
                 None
             }
         };
+        let exact = |what: &str, got: f64, want: f64| -> Option<Failure> {
+            if got == want { None } else { fail(case, "drift", format!("t={} ({} regime, m={:e}, n={}): {} {} != {} element {} of the current window", t, regime, m, n, what, got, if what == "Minimum" { "least" } else { "greatest" }, want)) }
+        };
+        let w: Vec<f64> = if due && !bars { win.window() } else { vec![] };
+        if due && !bars {
+            if let Some(msg) = win.selfcheck(&w, big) {
+                return fail(case, "harness-reference", msg);
+            }
+        }
         let r = match case.ind.as_str() {
-            "SimpleMovingAverage" => chk("SMA", out[0], spec::mean(&w), tol),
-            "WeightedMovingAverage" => chk("WMA", out[0], spec::wma(&w), tol),
+            "SimpleMovingAverage" => chk("SMA", out[0], if due { spec::mean(&w) } else { win.mean() }, tol),
+            "WeightedMovingAverage" => {
+                let want = if due { spec::wma(&w) } else { win.wma() };
+                let e = dd(out[0]).sub(want).to_f64();
+                let r = if marginal.is_some() {
+                    // inside the known drift regime (see `WmaDrift`): only a JUMP of the error is a new failure
+                    drift.worst = drift.worst.max(e.abs() / tol);
+                    if (e - drift.prev).abs() > WmaDrift::JUMP * tol {
+                        fail(case, "drift", format!("t={} ({} regime, m={:e}, n={}): WMA = {:e}, {} = {:e}; the error jumped from {:e} to {:e} in ONE step (> τ(t)·M/4 = {:e}; rounding drift moves it by < τ·M/100 per step)", t, regime, m, n, out[0], how, want.to_f64(), drift.prev, e, WmaDrift::JUMP * tol))
+                    } else {
+                        None
+                    }
+                } else {
+                    chk("WMA", out[0], want, tol)
+                };
+                drift.prev = e;
+                r
+            }
             "MeanAbsoluteDeviation" => chk("MAD", out[0], spec::mad(&w), tol),
-            "StandardDeviation" => chk("variance", dd(out[0]).mul(dd(out[0])).to_f64(), spec::var(&w), tau(t) * big * big),
-            "BollingerBands" => chk("BB.average", out[0], spec::mean(&w), tol).or_else(|| {
+            "StandardDeviation" => chk("variance", dd(out[0]).mul(dd(out[0])).to_f64(), if due { spec::var(&w) } else { win.var() }, tau(t) * big * big),
+            "BollingerBands" => chk("BB.average", out[0], if due { spec::mean(&w) } else { win.mean() }, tol).or_else(|| {
                 let hw = dd(out[1]).sub(dd(out[0])).div(dd(case.ms[0]));
-                chk("BB half-width² / m²", hw.mul(hw).to_f64(), spec::var(&w), tau(t) * big * big * 1.0001 + 1e-15 * big * big)
+                chk("BB half-width² / m²", hw.mul(hw).to_f64(), if due { spec::var(&w) } else { win.var() }, tau(t) * big * big * 1.0001 + 1e-15 * big * big)
             }),
-            "Minimum" => if out[0] == spec::fmin(&w) { None } else { fail(case, "drift", format!("t={}: Minimum {} != least element {}", t, out[0], spec::fmin(&w))) },
-            "Maximum" => if out[0] == spec::fmax(&w) { None } else { fail(case, "drift", format!("t={}: Maximum {} != greatest element {}", t, out[0], spec::fmax(&w))) },
+            "Minimum" => exact("Minimum", out[0], if due { spec::fmin(&w) } else { win.min() }),
+            "Maximum" => exact("Maximum", out[0], if due { spec::fmax(&w) } else { win.max() }),
             "CommodityChannelIndex" => {
-                let bw: Vec<B> = bring.iter().rev().take(n).rev().copied().collect();
-                let tps: Vec<DD> = bw.iter().map(spec::typical).collect();
+                let tps: Vec<DD> = tring.iter().rev().take(n).rev().copied().collect();
                 let k = DD::fromu(tps.len());
                 let mean = tps.iter().fold(DD::ZERO, |a, x| a.add(*x)).div(k);
                 let mad = tps.iter().fold(DD::ZERO, |a, x| a.add(x.sub(mean).abs())).div(k);
@@ -138,8 +382,8 @@ pub fn check(case: &Case, _rec: &mut Rec) -> Option<Failure> {
                     let (mut pos, mut neg) = (DD::ZERO, DD::ZERO);
                     let mut ambiguous = false;
                     for j in 1..bw.len() {
-                        let a = spec::typical(&bw[j]);
-                        let p = spec::typical(&bw[j - 1]);
+                        let a = tring[j];
+                        let p = tring[j - 1];
                         let fa = (bw[j].c + bw[j].h + bw[j].l) / 3.0;
                         let fp = (bw[j - 1].c + bw[j - 1].h + bw[j - 1].l) / 3.0;
                         if (p.lt(a)) != (fa > fp) || (a.lt(p)) != (fa < fp) {
@@ -163,15 +407,27 @@ pub fn check(case: &Case, _rec: &mut Rec) -> Option<Failure> {
             }
             _ => None,
         };
-        if r.is_some() {
-            return r;
+        if let Some(f) = r {
+            if f.key.ends_with(":drift-marginal") {
+                if marginal.is_none() {
+                    marginal = Some(f);
+                }
+            } else {
+                return Some(f);
+            }
         }
     }
-    None
+    marginal.map(|f| drift.annotate(f))
+}
+
+/// O(period) work per input in the crate itself
+fn linear_cost(ind: &str) -> bool {
+    matches!(ind, "MeanAbsoluteDeviation" | "CommodityChannelIndex")
 }
 
 pub fn generate(r: &mut Runner) {
-    let len = if r.tier == Tier::Quick { 100_000usize } else { 2_000_000usize };
+    // quick: past 2^20 (the largest round count of the tier) plus its dense interval; thorough: the property's 2·10^6
+    let base = if r.tier == Tier::Quick { (1usize << 20) + 40 } else { 2_000_000usize };
     let reps = if r.tier == Tier::Quick { 1 } else { 3 };
     r.log_every = u64::MAX; // streams are too long for the op log; the model tie of these indicators is exercised by C01/C03
     for rep in 0..reps {
@@ -184,17 +440,22 @@ pub fn generate(r: &mut Runner) {
                     3 => r.rng.range(101, 1000),
                     _ => 1000,
                 };
+                // two thirds of the periods > 2 are replaced by a nearby period that divides no round count
+                let n = if n > 2 && r.rng.chance(0.67) { odd_period(&mut r.rng, (n * 3 / 4).max(3), n) } else { n };
                 // O(n) indicators: keep n·len affordable
-                let n = if matches!(*ind, "MeanAbsoluteDeviation" | "CommodityChannelIndex") && r.tier == Tier::Thorough { n.min(200) } else { n };
+                let n = if linear_cost(ind) && r.tier == Tier::Thorough { n.min(200) } else { n };
+                let len = if r.tier == Tier::Quick && linear_cost(ind) && n > 64 { 100_000 } else { base + if r.tier == Tier::Quick { 2 * n + 2 } else { 0 } };
                 let m = *r.rng.pick(&[1e-3, 1e-2, 1.0, 50.0, 1e3, 1e6]);
                 let ms: Vec<f64> = if *ind == "BollingerBands" { vec![2.0] } else { vec![] };
-                let mut c = Case::new("C13", &format!("long-{}", REGIMES[g]), ind, &[n], &ms);
-                c.extra = vec![(r.rng.u64() % (1 << 50)) as f64, g as f64, m, len as f64];
-                r.steps += len as u64;
+                // a third of the cases: a prior session (1..3n+50 inputs) closed by reset() precedes the stream
+                let prior = if (k + 2 * g + rep) % 3 == 0 { r.rng.range(1, 3 * n + 50) } else { 0 };
+                let mut c = Case::new("C13", &format!("long-{}{}", REGIMES[g], if prior > 0 { "-after-reset" } else { "" }), ind, &[n], &ms);
+                c.extra = vec![(r.rng.u64() % (1 << 50)) as f64, g as f64, m, len as f64, prior as f64];
+                r.steps += (len + prior) as u64;
                 r.run(c, true);
             }
         }
     }
 }
 
-pub const RULE: &str = "9 indicators × 7 regimes (random walk, alternating extremes of the band [m, 1000m], spikes, plateaus, saw-tooth, tick-quoted walk on 16 levels with ties everywhere, violent/quiet alternation with 1e-8 jitter) × periods from {1, 2..10, 11..100, 101..1000, 1000} × m from {1e-3,1e-2,1,50,1e3,1e6}; one stream of 10^5 (quick) / 2·10^6 (thorough, 3 repetitions) consecutive inputs without reset each, regenerated from the seed stored in the case; outputs compared with a from-scratch double-double evaluation of the harness's own copy of the window at 400 evenly spaced steps and at the end (tau(t)·M; variances for SD and BB; exact for Minimum/Maximum, which are compared at EVERY step; CCI when c <= 1e6; MFI when c <= 1000); SD >= 0 and not NaN at EVERY step. Every case non-trivial (thousands of wrap-arounds).";
+pub const RULE: &str = "9 indicators × 8 regimes (random walk, alternating extremes of the band [m, 1000m], spikes, plateaus, saw-tooth, tick-quoted walk on 16 levels with ties everywhere, violent/quiet alternation with 1e-8 jitter, independent uniform draws over the band) × periods from {1, 2..10, 11..100, 101..1000, 1000}, two thirds of those > 2 moved to a nearby period coprime to 10 (it divides no round count; the rest includes powers of two) × m from {1e-3,1e-2,1,50,1e3,1e6}; one stream of 2^20+2n+42 (quick; 10^5 for MAD/CCI with n > 64) / 2·10^6 (thorough, 3 repetitions) consecutive inputs without reset each, regenerated from the seed stored in the case; a third of the cases (every indicator in at least two regimes) first run a prior session of 1..3n+50 inputs closed by reset() on the same instance (t, M and the window restart at the reset). Outputs are compared with a from-scratch double-double evaluation of the harness's own copy of the window at the first 2n+2 steps, at 400 evenly spaced steps and at the end; MeanAbsoluteDeviation, CCI and MFI in addition from scratch at EVERY step of [N-1, N+2n+2] for every round update count N (all powers of two 2^10..2^20 and 10^3, 5·10^3, …, 10^6; 2·10^6 is the end of a thorough run) — a hidden update counter firing there is observed even if its effect heals after n steps; SMA, WMA, SD (variance), BB, Minimum, Maximum are compared at EVERY step of the run with exact running double-double evaluations of the window (Σx, Σx², Σi·x_i updated in 106-bit arithmetic, sliding extremes by monotonic deques; themselves cross-checked against the from-scratch evaluation at the sampled steps), so a counter of ANY interval is observed for them. Tolerances: tau(t)·M; variances for SD and BB; exact for Minimum/Maximum; CCI when c <= 1e6; MFI when c <= 1000; SD >= 0 and not NaN at EVERY step. The known WMA drift (first exceedance of tau·M by at most 2×, reported as drift-marginal) does not end a run: the run continues and from there on a jump of WMA's signed error by more than tau·M/4 in one step is a failure (rounding moves it by < tau·M/100 per step). Every case non-trivial (thousands of wrap-arounds).";
